@@ -59,6 +59,14 @@ Theorem C01_drops_documented :
 Proof. exact drops_documented. Qed.
 Print Assumptions C01_drops_documented.
 
+(* (5) the stage list the instance runs IS the list EventProcessor.register_stage keeps under forward name matching
+   (C16), for every valuation and every profile over the program's names *)
+Theorem C01_stage_list_is_registered :
+  forall (v : nat -> bool) (P : prof), map fst P = names the_program ->
+    map (fun x => r_name (snd x)) (selected v P the_program) = registered P (calls v the_program).
+Proof. exact selected_is_registered. Qed.
+Print Assumptions C01_stage_list_is_registered.
+
 (* non-vacuity: a stream with a Prep slice, a global-named slice, a filtered slice and a slice beyond the count
    limit, run through the full default pipeline with --drop_globals: the four are recorded under their rules and
    the remaining two are exported *)
